@@ -1,4 +1,5 @@
 import DtsVerif.Props.C01
+import DtsVerif.Props.Scatter
 import DtsVerif.Props.ObsSpec
 import Mathlib.Tactic.Positivity
 import Mathlib.Tactic.FieldSimp
